@@ -1095,7 +1095,7 @@ def search_roundtrip(ctx: Ctx) -> SearchResult:
 			outcome = common.exc_enum(e)
 		if outcome != 'ok':
 			res.findings.append(Finding(key=f'header-roundtrip:{outcome}', what=f'header of module meta {m!r} is not read back ({outcome})',
-				replay={'search': 'roundtrip', 'module': m, 'transpiler': t, 'version': ver, 'pre': pre, 'body': body}))
+				replay={'search': 'roundtrip', 'ascii_json': json.dumps({'module': m, 'transpiler': t, 'version': ver, 'pre': pre, 'body': body})}))
 			hist[f'finding:{outcome}'] += 1
 	# the documented edge (not a finding: the template always ends the header line): header as the last line without line break
 	try:
@@ -1287,6 +1287,7 @@ def replay(ctx: Ctx, path: str) -> int:
 			res.findings.append(Finding('replay', 'modules share an output path', inp))
 	elif kind == 'roundtrip':
 		from rogw.tranp.data.meta.header import MetaHeader
+		inp = json.loads(inp['ascii_json']) if 'ascii_json' in inp else inp
 		try:
 			h = MetaHeader(inp['module'], inp['transpiler'], inp['version'])
 			h2 = MetaHeader.try_from_content(inp['pre'] + h.to_header_str() + '\n' + inp['body'])
